@@ -40,10 +40,10 @@ CLAIMED = {
     "C14": ("E1+E2", "Kani on is_true; MIR symbolic execution (z3+cvc5) of Operator::eval, BinOp::eval and the unary-not arm",
             "bounded model checking: truthiness table over every value kind; and/or operand selection by identity and short-circuit "
             "evaluation order for every operand kind; the `not` arm (known finding for non-boolean operands)"),
-    "C16": ("E2", "symbolic execution of Scope::set_variable / define_global (MIR), obligations decided by z3 and cvc5",
+    "C16": ("E2", "symbolic execution of Scope::set_variable / define_global and of handle_item's @for / @each / @while arms (MIR), obligations decided by z3 and cvc5",
             "bounded model checking (flag-rule scope): !default writes only over an absent or null binding, !global goes through define_global to the "
-            "root scope, a plain assignment writes the current scope's table, built-in modules refuse assignment; the scope-creation rules of the "
-            "evaluator are outside; one recorded finding (an unflagged assignment shadows an enclosing local)"),
+            "root scope, a plain assignment writes the current scope's table, built-in modules refuse assignment; @for / @while bind and run in a sub-scope, "
+            "@each saves and restores the previous values of its variables; the scope-creation rules of rules, mixins and functions are outside; one recorded finding (an unflagged assignment shadows an enclosing local)"),
     "C17": ("E1+E2", "Kani/CBMC bounded model checking of the real ValueRange; MIR symbolic execution of SrcRange::evaluate",
             "bounded model checking (@for scope): the visited sequence for all from,to in [-6,6] and the iteration count at the i64 limits"),
     "C26": ("E2", "symbolic execution of the closures' MIR, obligations decided by z3 and cvc5",
